@@ -94,6 +94,15 @@ def call_speclib(E, name, args, kwargs, st, node):
     from .engine import FuncV, Raised
     if name == "implies":
         return [(st, ops.b_implies(args[0], args[1]))]
+    if name == "uf":
+        # an uninterpreted function of integers, named by its first argument: stands for a function whose contract is
+        # proved elsewhere ("the decoding of these bytes"), equal arguments give equal results and nothing more is known
+        fname = args[0]
+        if not isinstance(fname, str):
+            raise EngineError("uf(name, ...) needs a literal name")
+        terms = [to_int_term(a) if not isinstance(a, int) else z3.IntVal(a) for a in args[1:]]
+        f = z3.Function("uf_" + fname, *([z3.IntSort()] * (len(terms) + 1)))
+        return [(st, f(*terms))]
     if name == "iff":
         a, b = truth(args[0]), truth(args[1])
         return [(st, equal(ops._tb(a), ops._tb(b)))]
